@@ -1079,3 +1079,57 @@ func (c *Ctx) closureMentions(root *Func, obj types.Object) bool {
 	}
 	return false
 }
+
+// reachingConstString: the value of e when it is a string constant, or a local variable whose last assignment before
+// this use (the one that dominates the use with no other assignment in between) is a string constant.
+func (f *Func) reachingConstString(g *Graph, e ast.Expr) (string, bool) {
+	if s, ok := f.ConstString(e); ok {
+		return s, true
+	}
+	id, ok := ast.Unparen(e).(*ast.Ident)
+	if !ok {
+		return "", false
+	}
+	v, isVar := f.ObjOf(id).(*types.Var)
+	if !isVar || v.IsField() || f.addressTaken(v) {
+		return "", false
+	}
+	uv := g.VertexOf(id)
+	var ws []Write
+	for _, w := range Writes(f.Root().Body, true) {
+		if f.ObjOf(w.LHS) == types.Object(v) {
+			if _, isID := ast.Unparen(w.LHS).(*ast.Ident); isID {
+				ws = append(ws, w)
+			}
+		}
+	}
+	for _, w := range ws {
+		if w.RHS == nil {
+			continue
+		}
+		s, isC := f.ConstString(w.RHS)
+		if !isC {
+			continue
+		}
+		wv := g.VertexOf(w.Stmt)
+		if wv == uv || !g.Dominates(wv, uv) {
+			continue
+		}
+		// no other assignment can run between this one and the use
+		clean := true
+		fromW := g.ReachableFrom(wv)
+		for _, o := range ws {
+			if o.Stmt == w.Stmt {
+				continue
+			}
+			ov := g.VertexOf(o.Stmt)
+			if fromW[ov] && g.ReachableFrom(ov)[uv] {
+				clean = false
+			}
+		}
+		if clean {
+			return s, true
+		}
+	}
+	return "", false
+}
